@@ -37,16 +37,17 @@ var c07Tests = []struct {
 	name string
 	args [][]string
 }{
-	{"has_any_word", [][]string{{"red blue"}, {"yes"}, {"@contact.name"}, {"@(1/0)"}}},
+	// arguments that are text around an expression that fails: the argument is what is left of the text (an error is logged)
+	{"has_any_word", [][]string{{"red blue"}, {"yes"}, {"@contact.name"}, {"@(1/0)"}, {"red blue @(1/0)"}, {"@(1/0) yes @fields.nope"}, {"red@(1/0)"}}},
 	{"has_all_words", [][]string{{"red blue"}, {"the"}}},
-	{"has_phrase", [][]string{{"red"}, {"the red"}}},
+	{"has_phrase", [][]string{{"red"}, {"the red"}, {"the @(1/0)red"}, {"@(1/0) red @(upper(1/0))"}}},
 	{"has_only_phrase", [][]string{{"red"}, {"yes"}}},
-	{"has_beginning", [][]string{{"re"}, {"the"}, {" re"}}},
+	{"has_beginning", [][]string{{"re"}, {"the"}, {" re"}, {"re@(1/0)"}}},
 	{"has_text", [][]string{{}}},
 	{"has_number", [][]string{{}}},
 	{"has_number_gt", [][]string{{"5"}, {"x"}, {"@(1/0)"}}},
 	{"has_number_between", [][]string{{"1", "10"}, {"5", "@fields.nope"}}},
-	{"has_number_eq", [][]string{{"7"}}},
+	{"has_number_eq", [][]string{{"7"}, {"7@(1/0)"}, {"@(1/0) 7"}}},
 	{"has_pattern", [][]string{{"r.d"}, {"("}, {"red "}}},
 	{"has_email", [][]string{{}}},
 	{"has_error", [][]string{{}}},
@@ -98,7 +99,7 @@ func runC07(c *Ctx) {
 				case 0:
 					cc.fraArgs = append([]string{}, args...)
 					for ai := range cc.fraArgs {
-						cc.fraArgs[ai] = Pick(r, []string{"rouge", "red", "7", "@(1/0)"})
+						cc.fraArgs[ai] = Pick(r, []string{"rouge", "red", "7", "@(1/0)", "red @(1/0)", "7@(1/0)"})
 					}
 				case 1:
 					cc.fraArgs = append(append([]string{}, args...), "extra")
